@@ -73,6 +73,17 @@ func c08Eval(c *fw.Ctx, k c08Case) (sig, desc string, nontrivial bool, outcome s
 		(&BFile{L: l, Rings: dst, Base: basePicks(k.Dst, len(l.Archs))}).Write(dpath)
 	case "fresh":
 		(&BFile{L: l, Rings: dst}).Write(dpath)
+	case "almost-equal":
+		// every destination slot holds a value one ulp away from the source's: it is a different value and must be replaced
+		for i := range l.Archs {
+			for c, s := range src[i] {
+				if s.V != 0 && !math.IsNaN(s.V) {
+					s.V = math.Nextafter(s.V, math.Inf(1))
+				}
+				dst[i][c] = s
+			}
+		}
+		(&BFile{L: l, Rings: dst}).Write(dpath)
 	case "coarser-equal":
 		// every archive but the finest already equals the source
 		for i := 1; i < len(l.Archs); i++ {
@@ -98,6 +109,9 @@ func c08Eval(c *fw.Ctx, k c08Case) (sig, desc string, nontrivial bool, outcome s
 		sf.Write(filepath.Join(sdir, "g", "a.wsp"))
 		sf.Write(filepath.Join(ddir, "g", "a.wsp"))
 		sf.Write(filepath.Join(sdir, "g", "c.wsp"))
+		// a matched source that is a symbolic link to a whisper file elsewhere
+		sf.Write(filepath.Join(sdir, "elsewhere", "real.wsp"))
+		os.Symlink(filepath.Join(sdir, "elsewhere", "real.wsp"), filepath.Join(sdir, "g", "d.wsp"))
 	}
 	preDest, _ := os.ReadFile(dpath)
 	until := k.Until
@@ -174,7 +188,7 @@ func c08Eval(c *fw.Ctx, k c08Case) (sig, desc string, nontrivial bool, outcome s
 			if !valEqual(sv, pre[i].Vals[j]) {
 				nontrivial = true
 			}
-			if valEqual(sv, have[i].Vals[j]) {
+			if valEqual(sv, have[i].Vals[j]) && (math.IsNaN(sv) || sv == 0 || math.Float64bits(sv) == math.Float64bits(have[i].Vals[j])) {
 				continue
 			}
 			t := want[i].Shape.From + int64(j)*want[i].Shape.Step
@@ -198,7 +212,7 @@ func c08Eval(c *fw.Ctx, k c08Case) (sig, desc string, nontrivial bool, outcome s
 		return sig, desc, nontrivial, outcome
 	}
 	if k.Glob {
-		for _, f := range []string{"g/a.wsp", "g/c.wsp"} {
+		for _, f := range []string{"g/a.wsp", "g/c.wsp", "g/d.wsp"} {
 			b, err := os.ReadFile(filepath.Join(ddir, f))
 			if err != nil {
 				return "C08/glob/file-not-copied", ctx + ": matched source " + f + " has no counterpart under the destination base", nontrivial, outcome
@@ -308,7 +322,7 @@ func runC08(c *fw.Ctx) {
 			if si%3 == 0 && tag == "L4" && c.Thorough() {
 				dsts = dsts3
 			}
-			for di := -5; di < len(dsts); di++ {
+			for di := -6; di < len(dsts); di++ {
 				if !c.Mine() {
 					continue
 				}
@@ -318,6 +332,8 @@ func runC08(c *fw.Ctx) {
 				kind := "file"
 				var d []int
 				switch di {
+				case -6:
+					kind = "almost-equal"
 				case -5:
 					kind = "other-layout-points"
 				case -4:
@@ -338,7 +354,7 @@ func runC08(c *fw.Ctx) {
 				for ai, arch := range archSel {
 					for wi, w := range wins {
 						for ni, cn := range []bool{false, true} {
-							m := mx[(si+di+5+ai+wi+ni)%len(mx)]
+							m := mx[(si+di+6+ai+wi+ni)%len(mx)]
 							if !c.Thorough() && (wi > 1 || ai > 0) && (si+di+ai+wi+ni)%3 != 0 {
 								continue
 							}
